@@ -1,9 +1,11 @@
 package chansim
 
 import (
-	"verif/simcore"
-	"strings"
+	"bytes"
 	"fmt"
+	"math/big"
+	"strings"
+	"verif/simcore"
 
 	"github.com/lightningnetwork/lnd/channeldb"
 	"github.com/lightningnetwork/lnd/fn/v2"
@@ -79,6 +81,9 @@ func (s *Sim) enabled(k Knobs) []event {
 			if _, ok := s.Q[x][0].(*lnwire.RevokeAndAck); ok && k.FailW > 0 && s.faults < 4 {
 				ev = append(ev, event{"deliver!io", x, k.FailW})
 			}
+			if _, ok := s.Q[x][0].(*lnwire.RevokeAndAck); ok && s.Mode.ForgedRev && s.forged < 2 && s.faults < 4 {
+				ev = append(ev, event{"deliver!forged", x, 2})
+			}
 		}
 	}
 	if k.CutW > 0 && s.faults < 4 {
@@ -131,6 +136,77 @@ func (s *Sim) deliverWithIOFailure(from int) {
 	}
 	r.Count("fault_write_fail_recv_rev")
 	r.Logf("%s.ReceiveRevocation failed with injected I/O error: %v", nm(to), err)
+	s.injected[to] = true
+}
+
+// secp256k1 group order
+var curveN, _ = new(big.Int).SetString("fffffffffffffffffffffffffffffffebaaedce6af48a03bbfd25e8cd0364141", 16)
+
+// deliverForgedRevocation: "rejects any secret not consistent with the earlier
+// ones". Ahead of the peer's genuine revoke_and_ack the receiver is handed a
+// copy whose per-commitment secret is not the one the peer committed to with
+// the commitment point it sent earlier: one bit flipped, the scalar negated
+// (n - s: the point with the same x coordinate), s + 1, the secret of another
+// height of the same chain, or a secret of a foreign chain. The call must
+// fail and must not write. lnd fails the link on an invalid revocation; the
+// simulation goes on as after a cut (both sides reload, the genuine
+// revocation is retransmitted), so whatever the rejected call left in memory
+// is dropped and what it left on disk is judged by every later check.
+func (s *Sim) deliverForgedRevocation(from int) {
+	r := s.R
+	to := 1 - from
+	genuine := s.Q[from][0].(*lnwire.RevokeAndAck)
+	forged := *genuine
+	kinds := []string{"bit-flip", "negated-scalar", "plus-one", "other-height", "foreign-chain"}
+	kind := kinds[r.Draw(len(kinds))]
+	sec := new(big.Int).SetBytes(genuine.Revocation[:])
+	put := func(v *big.Int) {
+		var b [32]byte
+		v.FillBytes(b[:])
+		copy(forged.Revocation[:], b[:])
+	}
+	switch kind {
+	case "bit-flip":
+		bit := r.Draw(256)
+		forged.Revocation[bit/8] ^= 1 << uint(bit%8)
+	case "negated-scalar":
+		put(new(big.Int).Sub(curveN, new(big.Int).Mod(sec, curveN)))
+	case "plus-one":
+		put(new(big.Int).Mod(new(big.Int).Add(sec, big.NewInt(1)), curveN))
+	case "other-height":
+		// a secret the peer has released before (replay), else its next one
+		var other [32]byte
+		found := false
+		for oh := range s.RevMsgs[from] {
+			o := DeriveSecret(s.P[from].Root, oh)
+			if !bytes.Equal(o[:], genuine.Revocation[:]) && (!found || bytes.Compare(o[:], other[:]) < 0) {
+				other, found = o, true
+			}
+		}
+		if !found {
+			other = DeriveSecret(s.P[from].Root, uint64(len(s.RevMsgs[from]))+1)
+		}
+		copy(forged.Revocation[:], other[:])
+	case "foreign-chain":
+		o := DeriveSecret(s.P[to].Root, uint64(r.Draw(4)))
+		copy(forged.Revocation[:], o[:])
+	}
+	if bytes.Equal(forged.Revocation[:], genuine.Revocation[:]) {
+		r.Harness("forged revocation equals the genuine one (%s)", kind)
+	}
+	p := s.P[to]
+	w0 := p.KV.Writes()
+	_, _, err := p.Chan.ReceiveRevocation(&forged)
+	if err == nil {
+		r.Fail("forged-revocation-accepted", "%s accepted a revoke_and_ack whose per-commitment secret (%s of the genuine one) does not match the commitment point the peer had sent for that height: the revocation store now holds a value that is not the peer's secret", nm(to), kind)
+	}
+	if w := p.KV.Writes(); w != w0 {
+		r.Fail("forged-revocation-persisted", "%s rejected a forged revoke_and_ack (%s) but performed %d write transaction(s) while doing so", nm(to), kind, w-w0)
+	}
+	s.forged++
+	r.Count("fault_forged_revocation_" + kind)
+	r.Logf("%s rejected a forged revoke_and_ack (%s): %v", nm(to), kind, err)
+	// the receiving object is discarded (lnd fails the link)
 	s.injected[to] = true
 }
 
@@ -214,6 +290,9 @@ func (s *Sim) Run() {
 			s.deliver(e.side)
 		case "deliver!io":
 			s.deliverWithIOFailure(e.side)
+			s.deliverPrefixesAndCut(1 - e.side)
+		case "deliver!forged":
+			s.deliverForgedRevocation(e.side)
 			s.deliverPrefixesAndCut(1 - e.side)
 		case "cut":
 			s.deliverPrefixesAndCut(-1)
